@@ -384,6 +384,17 @@ def cursor_chain(ctx, prog):
                     else:
                         ctx.violation(rule, cb.id, "Forward.cursor source", "Forward.cursor does not derive from the item being forwarded", site=cb.loc(st.get("sp")))
     ctx.floor(rule, "Forward constructions in forward_device_data closures", hop2, 1)
+    # hop 2b: the forwards are pushed under the request's own filter index and QoS
+    f = prog.one(r"^router::routing::forward_device_data$")
+    pfc = [(bb, t) for bb, t in f.calls() if callee_path(t).endswith("Outgoing::push_forwards") and not f.is_cleanup(bb)]
+    ctx.floor(rule, "push_forwards calls in forward_device_data", len(pfc), 1)
+    for bb, t in pfc:
+        for argi, fld in ((2, "qos"), (3, "filter_idx")):
+            src = flatten_src(provenance(f, t["args"][argi]))
+            if src and all(x.kind == "param" and x.l == 1 and x.fields[-1:] == [fld] for x in src):
+                ctx.ok(rule, f.id, "push_forwards(.., %s) is the request's own %s" % (fld, fld), site=f.loc(t.get("sp")))
+            else:
+                ctx.violation(rule, f.id, "push_forwards %s" % fld, "forward_device_data pushes the forwards under a %s that is not request.%s: the per-filter rewind map is keyed wrongly" % (fld, fld), site=f.loc(t.get("sp")))
     # hop 3: inflight_buffer entry = (pkid just assigned, filter_idx parameter, p.cursor)
     pf = prog.one(r"^router::iobufs::Outgoing::push_forwards$")
     hop3 = 0
